@@ -306,12 +306,16 @@ impl Monitor for C01 {
                     if probe {
                         let v = ctx.mid.iter().find(|m| m.conn_id == *c).unwrap();
                         let since = self.data_since_probe.get(c).copied().unwrap_or(0) + 1;
-                        let legal = v.private.stall_gated && is_data && since >= 100 && established;
+                        // a probe whose own threshold flush failed resets the link (and its
+                        // gated flag) inside this very step: judge the flag only if the link survived
+                        let reset_in_step = ctx.pre.iter().any(|p| p.conn_id == *c && p.connected) && !v.connected;
+                        let gated = v.private.stall_gated || reset_in_step;
+                        let legal = gated && is_data && since >= 100 && established;
                         out.probe("c01.probe_copy");
                         if !legal {
                             out.violate(
                                 &format!("{M}.extra_copy"),
-                                if !v.private.stall_gated {
+                                if !gated {
                                     "not_gated"
                                 } else if !is_data {
                                     "not_data"
